@@ -192,10 +192,64 @@ def r5_tokens_under_job_lock(chk: Check):
     chk.require(ok, chk.fkey(w, "watcher reads pid under job lock"), "the token watcher must look for the pid file while holding the job lock", chk.loc(w.module, w.node))
 
 
+def r6_single_token_object(chk: Check):
+    """Within a process only the thread lock of the one token object serialises acquisitions (POSIX locks are per process)"""
+    from ..dataflow import path_traces
+
+    tree = chk.tree
+    f = tree.func("tokens", "CounterToken.create")
+    ts = path_traces(f.node)
+    loc = chk.loc(f.module, f.node)
+    g = CFG(f.node)
+    ctor = g.call_nodes(lambda c: dotted(c.func) == "CounterToken")
+    chk.require(len(ctor) == 1, chk.fkey(f, "constructs"), "CounterToken.create must construct a token at one place", loc)
+    for n, c in ctor:
+        conds = [(src(t.ast), pol) for t, pol in g.guards(n) if t.kind == "test"]
+        ok = conds in ([("CounterToken.TOKENS.get(name, None)", False)], [("created", False)], [("CounterToken.TOKENS.get(name)", False)], [("CounterToken.TOKENS.get(name, None) is None", True)], [("created is None", True)])
+        chk.require(ok, chk.fkey(f, "one object per name"),
+                    f"a second CounterToken object is constructed under {conds}: a token name must map to a single object per process whenever one is registered "
+                    "(two objects on one directory do not exclude each other's acquisitions inside the process)", chk.loc(f.module, c))
+    regs = [n for n in g.live if n.kind == "stmt" and isinstance(n.ast, ast.Assign) and src(n.ast.targets[0]) == "CounterToken.TOKENS[name]"]
+    chk.require(len(regs) == 1 and ctor and g.dominates(ctor[0][0], regs[0]), chk.fkey(f, "registers"), "a newly constructed token must be registered", loc)
+    others = [ff.qual for ff in tree.nontest_funcs() for c in fn_calls(ff.node) if dotted(c.func) == "CounterToken" and ff.key != f.key]
+    chk.require(not others, chk.fkey(f, "only create() constructs"), f"{others} construct CounterToken directly, bypassing the registry", loc)
+
+
+def r7_ipc_lock_ownership(chk: Check):
+    """POSIX record locks belong to the process: a second lock object on token.lock inside the process, when released,
+    silently drops the lock that acquire() believes it holds"""
+    tree = chk.tree
+    n = 0
+    for f in tree.nontest_funcs():
+        for c in fn_calls(f.node):
+            if "InterProcessLock" in (dotted(c.func) or "") and c.args:
+                n += 1
+                t = src(c.args[0])
+                is_token_lock = "token.lock" in t
+                if is_token_lock:
+                    chk.require(f.key == "tokens:CounterToken.__init__", chk.fkey(f, "locks token.lock"),
+                                f"`{src(c)}` in `{f.qual}` creates another lock object on the token's lock file; it must only be locked through the token's own ipc_lock under its thread lock", chk.loc(f.module, c))
+    uses = []
+    for f in tree.nontest_funcs():
+        if f.module.name != "tokens":
+            continue
+        for w in ast.walk(f.node):
+            if isinstance(w, (ast.With, ast.AsyncWith)):
+                items = [src(i.context_expr) for i in w.items]
+                if "self.ipc_lock" in items:
+                    uses.append((f, w))
+                    chk.require("self.lock" in items and items.index("self.lock") < items.index("self.ipc_lock"), chk.fkey(f, "ipc lock under thread lock"),
+                                f"`{f.qual}` takes the inter-process lock without (first) holding the thread lock", chk.loc(f.module, w))
+    chk.min_instances(len(uses), 3, "uses of the token ipc lock")
+    chk.count("interprocess_lock_constructions", n)
+
+
 RULES = [
     ("R1", "acquire critical section: recount, capacity test (refuse iff available < count), decrement and token-file creation all inside the thread and inter-process locks; refusal raises and creates nothing", r1_acquire_critical_section),
     ("R2", "recount: _update re-reads the total and subtracts every *.token file of the directory, unconditionally (no early return, no skipped file)", r2_recount),
     ("R3", "token files are created only by CounterToken.acquire; nothing else writes holdings", r3_writers),
     ("R4", "tokens are held for the whole run: acquired before aio_run, the wait for the process is inside the `with Locks()` block, a LockError never reaches aio_run", r4_hold_for_whole_run),
+    ("R6", "one CounterToken object per name per process (create() returns the registered one whenever it exists; nobody else constructs)", r6_single_token_object),
+    ("R7", "the token lock file is locked only through the token's own ipc_lock, always under the thread lock (POSIX locks are per process)", r7_ipc_lock_ownership),
     ("R5", "tokens are taken, and the process spawned, under the same job lock; the watcher reads the pid file under that lock", r5_tokens_under_job_lock),
 ]
